@@ -13,6 +13,7 @@ import SMGo.Gen.SM3Const
 import SMGo.Spec.SM4
 import SMGo.Model.SM4Inst
 import Driver.SM2
+import Driver.SM2Fiat
 import Driver.GCM
 import Driver.CTIR
 import Driver.GenDump
@@ -108,6 +109,7 @@ def handle (line : String) : String :=
   let toks := (line.splitOn " ").filter (· ≠ "")
   if let some r := handleSM4 toks then r else
   if let some r := Driver.SM2.handle toks then r else
+  if let some r := Driver.SM2Fiat.handle toks then r else
   if let some r := Driver.GCM.handle toks then r else
   if let some r := Driver.CTIR.handle toks then r else
   if let some r := Driver.GenDump.handle toks then r else
